@@ -1035,6 +1035,37 @@ pub unsafe extern "C" fn getrandom(buf: *mut c_void, len: size_t, _flags: c_uint
     len as ssize_t
 }
 
+/// The `getrandom` crate (ahash's and rand's seeds: the iteration order of the executors' hash
+/// maps) does not call the libc function but `syscall(SYS_getrandom, ..)`: interpose the generic
+/// wrapper too and forward every other system call untouched.
+#[unsafe(no_mangle)]
+pub unsafe extern "C" fn syscall(
+    num: libc::c_long,
+    a1: libc::c_long,
+    a2: libc::c_long,
+    a3: libc::c_long,
+    a4: libc::c_long,
+    a5: libc::c_long,
+    a6: libc::c_long,
+) -> libc::c_long {
+    if num == libc::SYS_getrandom {
+        return unsafe { getrandom(a1 as *mut c_void, a2 as size_t, a3 as c_uint) } as libc::c_long;
+    }
+    let real = real!(
+        "syscall",
+        unsafe extern "C" fn(
+            libc::c_long,
+            libc::c_long,
+            libc::c_long,
+            libc::c_long,
+            libc::c_long,
+            libc::c_long,
+            libc::c_long,
+        ) -> libc::c_long
+    );
+    unsafe { real(num, a1, a2, a3, a4, a5, a6) }
+}
+
 #[unsafe(no_mangle)]
 pub unsafe extern "C" fn getentropy(buf: *mut c_void, len: size_t) -> c_int {
     unsafe { getrandom(buf, len, 0) };
